@@ -7,6 +7,7 @@ mod p_lfo;
 mod p_midi;
 mod sr;
 mod p_quant;
+mod p_ribbon;
 
 use common::*;
 use std::path::PathBuf;
@@ -77,6 +78,8 @@ fn run(ctx: &Ctx) -> i32 {
         "C05" => (p_midi::c05(ctx), "BFS to fixpoint over note messages and edge polls of the real receiver against reference latches"),
         "C06" => (p_midi::c06(ctx), "byte-level BFS to fixpoint plus all 1- and 2-byte deviations of a stream catalogue, twin receivers around an independent MIDI 1.0 decoder"),
         "C18" => (p_midi::c18(ctx), "all controller numbers x values x channels and all pitch-bend values on the real receiver against the routing table, plus BFS to fixpoint over controller histories"),
+        "C15" => (p_ribbon::c15(ctx), "BFS to fixpoint over sample / edge-poll histories of the real ribbon controller at six buffer capacities against a run-length reference model"),
+        "C16" => (p_ribbon::c16(ctx), "BFS over multi-level sample histories of the real ribbon controller with reference-mean, differential (fresh controller) and monotonicity oracles on every pressed state"),
         other => {
             eprintln!("MACHINERY: unknown property id {}", other);
             return 2;
@@ -111,6 +114,7 @@ fn replay(rest: &[String]) -> i32 {
     let run = || -> Vec<String> {
         match machine {
             "lfo" => p_lfo::replay(cfg, &ops),
+            "ribbon" => p_ribbon::replay(cfg, &ops),
             "midi" => p_midi::replay(cfg, &ops),
             "clamp" => p_clamp::replay(cfg, &ops),
             "quantizer" => p_quant::replay(cfg, &ops),
